@@ -8,7 +8,7 @@ FX = "src/expr/eval.rs"
 
 SYMS = [it for it in us.UNIT.items if getattr(it, "mode", "") == "type" and it.name.startswith("Symbol")] + [
     Type("src/asm/decls/mod.rs", "struct", "ItemDecls", slot="asm"),
-    us.get_by_name.as_stub("util"), us.try_get_by_name.as_stub("util"), us.get_displayable_name.as_stub("util"),
+    us.get.as_stub("util"), us.get_by_name.as_stub("util"), us.try_get_by_name.as_stub("util"), us.get_displayable_name.as_stub("util"),
 ]
 
 QREP = "query.report"
@@ -71,7 +71,7 @@ eval_variable_simple = Fn(FEV, "eval_variable_simple", slot="resolver", ret="res
 check_unused_defines = Fn("src/asm/mod.rs", "check_unused_defines", slot="asm", ret="res", key="check_unused_defines", props=["C16", "C03"],
     requires=[C("table_wf", "decls.symbols.wf()", ["C03"])],
     ensures=[
-        C("a_define_that_names_no_declaration_is_an_error", "(res is Err) == crate::asm::resolver::some_define_unused(decls, opts.driver_symbol_defs@, opts.driver_symbol_defs@.len() as int)", ["C16"]),
+        C("a_define_that_names_no_declared_constant_is_an_error", "(res is Err) == crate::asm::resolver::some_define_unused(decls, opts.driver_symbol_defs@, opts.driver_symbol_defs@.len() as int)", ["C16"]),
         C("err_is_loud", "res is Err ==> final(report).msgs() > old(report).msgs()", ["C03", "C16"]),
         C("ok_is_clean", "res is Ok ==> final(report).msgs() == old(report).msgs()", ["C03"]),
     ],
